@@ -479,7 +479,9 @@ func exec(c StreamCase) (vh.Outcome, error) {
 		if ret != nil {
 			return out, vh.Errf("clean end of stream after %d frames %v returned an error: %v", len(c.Frames), c.Kinds, ret)
 		}
-	case "oversize", "trunclen":
+	case "oversize", "trunclen", "truncbody":
+		// a frame that is neither complete nor answered must end the connection with an error;
+		// only an end of stream *between* frames is a clean end
 		if ret == nil {
 			return out, vh.Errf("tail %s (% x) ended service without an error", c.Tail, c.TailBytes)
 		}
@@ -494,7 +496,7 @@ func codeOf(b []byte) any {
 	return b[0]
 }
 
-const rule = "byte streams for ServeAgent over an in-memory connection: 0..8 frames from a grammar (add-hardware-certificate in the new and the legacy encoding with real, bit-flipped and truncated key / certificate blobs, junk; list slots; read / attest slot with slot names; wait with any code; the nine standard requests well-formed (built by the library client) and truncated; unknown codes and extension with random bodies; frames of length 0, 1 and 2 with any code), followed by a clean end, a truncated length prefix, a truncated body or a declared length in {16 MiB+1, 2^30, 2^31, 2^32-1}; the served agent is a total recording agent that succeeds or fails every call with a text. Oracle: the harness parses the stream itself; a well-formed frame gets exactly one response of the right kind (SUCCESS / error text, marshalled slot replies, standard reply code, byte-identical forwarded reply) with the arguments recorded by the served agent; a malformed frame is answered or ends the connection with a non-nil error; responses in request order; nothing after the end; clean end => nil; oversize => error and < 8 MiB allocated. Non-trivial: >= 2 frames mixing well-formed and malformed, or a non-clean tail after >= 1 frame."
+const rule = "byte streams for ServeAgent over an in-memory connection: 0..8 frames from a grammar (add-hardware-certificate in the new and the legacy encoding with real, bit-flipped and truncated key / certificate blobs, junk; list slots; read / attest slot with slot names; wait with any code; the nine standard requests well-formed (built by the library client) and truncated; unknown codes and extension with random bodies; frames of length 0, 1 and 2 with any code), followed by a clean end, a truncated length prefix, a truncated body or a declared length in {16 MiB+1, 2^30, 2^31, 2^32-1}; the served agent is a total recording agent that succeeds or fails every call with a text. Oracle: the harness parses the stream itself; a well-formed frame gets exactly one response of the right kind (SUCCESS / error text, marshalled slot replies, standard reply code, byte-identical forwarded reply) with the arguments recorded by the served agent; a malformed frame is answered or ends the connection with a non-nil error; responses in request order; nothing after the end; clean end => nil; truncated length prefix or truncated body (including a stream that ends right after a length prefix) => error; oversize => error and < 8 MiB allocated. Non-trivial: >= 2 frames mixing well-formed and malformed, or a non-clean tail after >= 1 frame."
 
 func TestC12Stream(t *testing.T) {
 	vh.Run(t, vh.Spec[StreamCase]{Property: "C12", Name: "TestC12Stream", Rule: rule, Gen: genStream(false), Exec: exec})
@@ -548,6 +550,10 @@ func FuzzC12Stream(f *testing.F) {
 			c.Tail = "clean"
 		} else if len(rest) >= 4 && binary.BigEndian.Uint32(rest) > 16<<20 {
 			c.Tail = "oversize"
+		} else if len(rest) < 4 {
+			c.Tail = "trunclen"
+		} else {
+			c.Tail = "truncbody"
 		}
 		if _, err := exec(c); err != nil {
 			t.Fatal(err)
